@@ -4,10 +4,12 @@ open Bpmn.Props.C02
 #print axioms cease_sound
 #print axioms cease_at_most_monitors
 #print axioms wait_sound
+#print axioms cease_last
 #print axioms complete_live
 #print axioms C02_counterexample_missed_start
 #print axioms C02_counterexample_two_starts
 #print axioms C02_counterexample_expired_wait
+#print axioms C02_counterexample_late_boundary_trace
 #print axioms C02_safe
 #print axioms C02_for_partial
 #print axioms C02_holds_partial
@@ -22,3 +24,5 @@ open Bpmn.Props.C02
 #print axioms current_missed_start
 #print axioms current_two_starts
 #print axioms current_expired_wait
+#print axioms current_late_boundary_trace
+#print axioms current_liveness
